@@ -513,6 +513,9 @@ var c16Corners = []string{
 	"module m { struct S { 0 require int a ; } ; } ;", "module m { struct S { 0 require int a; 0 require int b; }; };", "module m { struct S { 4294967296 require int a; 0 require int b; }; };",
 	"module m { struct S { 2 require int a; 1 require int b; 0 optional int c; }; };", "module m { struct S { -1 require int a; 300 optional int b; }; };",
 	"module m { struct S { 0 require T a; }; };", "module m { struct S { 0 require m::S a; 1 require x::S b; }; };", "module m { struct S { 0 require vector<S> a; 1 optional map<int, vector<S>> b; }; };",
+	"module m { enum E { A }; struct T { 0 require int x; }; struct S { 0 require map<string, E> a; 1 require map<E, T> b; 2 optional vector<map<int, vector<E>>> c; 3 optional map<string, map<string, T>> d; 4 optional m::E q = A; 5 optional vector<m::T> r; }; interface I { map<string,E> f(map<int,T> a, out map<E,m::E> b); }; };",
+	"module m { enum E { A }; struct S { 0 require map<string, Nope> a; }; };", "module m { enum E { A }; struct S { 0 require map<Nope, E> a; }; };", "module m { struct S { 0 require vector<vector<Nope>> a; }; };",
+	"module m { enum E { A }; interface I { void f(map<int, Nope> a); }; };", "module m { enum E { A }; interface I { map<E, Nope> f(); }; };",
 	"module m { struct S { 0 require int a[3]; 1 optional T b[2]; 2 require byte c[0]; 3 require string d[-1]; }; };",
 	"module m { struct S { 0 require unsigned unsigned int a; 1 require unsigned long b; }; };", "module m { struct S { 0 require unsigned vector<int> a; }; };",
 	"module m { struct S { 0 require array a; }; };", "module m { struct S { 0 require vector<int a; }; };", "module m { struct S { 0 require map<int> a; }; };",
